@@ -92,6 +92,7 @@ class Scope:
         self.inline = list(p.inline) if p else []      # ids of coroutine defs being inlined
         self.filtered_loops = set(p.filtered_loops) if p else set()
         self.vsuffix = p.vsuffix if p else ""          # inlined coroutine activations have their own locals
+        self.datanames = set(p.datanames) if p else set()  # parameters of a runtime helper that hold loop *data*
 
     def v(self, name):
         return name + self.vsuffix
@@ -159,6 +160,79 @@ class Extractor:
             if not isinstance(d, ast.AsyncFunctionDef):
                 raise Unmodelled(f"{cls.__name__}.{meth} is not an async function")
             self.rt[meth] = d
+        self.read_adapter()
+
+    # -- the adapter between loop data and `async for` ------------------------
+    def read_adapter(self):
+        """`async for x in auto_aiter(DATA)` / `AsyncLoopContext(DATA, ..)`: what does the adaptation of
+        loop data open?  Read from the checkout under test: `auto_aiter` is either itself an async
+        generator function, or a plain function each of whose `return`s hands back either a call of an
+        async generator function of its module (an engine generator per loop: alternative "gen") or
+        something else (the data's own async iterator, an object with an `__anext__` coroutine:
+        alternative "data" = what the statement language writes as `many [pt next ..]`).  Which
+        alternative a given piece of data takes is data nondeterminism (`if` in the spec)."""
+        import jinja2.runtime as rtm
+
+        self.adapter_defs = {}
+        self.adapter_alts = ["data"]
+        self.loopctx_adapts = True
+        fn = inspect.unwrap(getattr(rtm, "auto_aiter"))
+        try:
+            mod = ast.parse(inspect.getsource(inspect.getmodule(fn)))
+            d = next(n for n in mod.body if isinstance(n, (ast.FunctionDef, ast.AsyncFunctionDef)) and n.name == fn.__name__)
+        except (OSError, TypeError, StopIteration):
+            raise Unmodelled("auto_aiter: source not available")
+        agens = {n.name: n for n in mod.body if isinstance(n, ast.AsyncFunctionDef) and _has_yield(n)}
+        if isinstance(d, ast.AsyncFunctionDef):
+            if not _has_yield(d):
+                raise Unmodelled("auto_aiter is a coroutine function")
+            self.adapter_defs[d.name] = d
+            self.adapter_alts = [d.name]
+        else:
+            alts = []
+            for r in [n for n in ast.walk(d) if isinstance(n, ast.Return)]:
+                v = r.value
+                a = v.func.id if isinstance(v, ast.Call) and isinstance(v.func, ast.Name) and v.func.id in agens else "data"
+                if a not in alts:
+                    alts.append(a)
+                if a != "data":
+                    self.adapter_defs[a] = agens[a]
+            self.adapter_alts = alts or ["data"]
+        # AsyncLoopContext adapts its iterable with the same function (else: its data is iterated as it is)
+        try:
+            lsrc = textwrap.dedent(inspect.getsource(rtm.AsyncLoopContext._to_iterator))
+            self.loopctx_adapts = any(isinstance(n, ast.Call) and _name(n.func) == "auto_aiter" for n in ast.walk(ast.parse(lsrc)))
+        except (OSError, TypeError, AttributeError):
+            raise Unmodelled("AsyncLoopContext._to_iterator: source not available")
+
+    def need_adapter(self, sc, name):
+        k = f"{sc.ctx}|rt:{name}"
+        if k not in self.funcs:
+            self.funcs[k] = None
+            d = self.adapter_defs[name]
+            inner = Scope(sc.ctx, sc.tmpl, f"rt:{name}")
+            inner.datanames = {a.arg for a in d.args.args}
+            self.funcs[k] = {"agen": True, "short": f"rt:{name}", "body": self.body(d.body, inner)}
+        return k
+
+    def data_loop(self, sc, body, orelse, adapted):
+        """A loop over *data*: each __anext__ is a data await point (one more ends the loop); if the
+        adapter can put an engine generator between the data and the loop, that is the other branch."""
+        plain = [{"op": "many", "body": [{"op": "pt", "k": "next"}] + body}, {"op": "pt", "k": "next"}] + orelse
+        if not adapted or sc.qual.startswith("rt:"):
+            return plain
+        out = None
+        for a in reversed(self.adapter_alts):
+            if a == "data":
+                alt = plain
+            else:
+                fn = self.need_adapter(sc, a)
+                var = self.fresh()
+                self.sites.append({"fn": fn, "in": self.key(sc.ctx, sc.tmpl, sc.qual), "g": False, "how": "adapter"})
+                alt = [{"op": "open", "var": var, "fn": fn},
+                       {"op": "afor", "var": var, "body": body, "orelse": orelse, "g": False}]
+            out = alt if out is None else [{"op": "if", "a": alt, "b": out}]
+        return out
 
     # -- inheritance ------------------------------------------------------
     def chain(self, ctx):
@@ -608,7 +682,12 @@ class Extractor:
                 pre += self.pts(a, sc)
         var = None
         g = False
-        if isinstance(src, ast.Name) and not (src.id in ("reciter", "fiter")):
+        adapted = False
+        if isinstance(it, ast.Call) and _name(it.func) == "AsyncLoopContext":
+            adapted = self.loopctx_adapts
+        if isinstance(src, ast.Call) and _name(src.func) == "auto_aiter" and len(src.args) == 1:
+            adapted = True
+        if isinstance(src, ast.Name) and not (src.id in ("reciter", "fiter") or src.id in sc.datanames):
             var = sc.v(src.id)
         else:
             fn = self.gen_call(src, sc)
@@ -627,10 +706,9 @@ class Extractor:
         orelse = self.body(s.orelse, sc, rec)
         if var is not None:
             return pre + [{"op": "afor", "var": var, "body": body, "orelse": orelse, "g": g}]
-        # a data iterable: each __anext__ is a data await point
+        # a data iterable (adapted by auto_aiter / AsyncLoopContext, or iterated as it is)
         pre += self.pts(src, sc)
-        # (one more __anext__ ends the loop)
-        return pre + [{"op": "many", "body": [{"op": "pt", "k": "next"}] + body}, {"op": "pt", "k": "next"}] + orelse
+        return pre + self.data_loop(sc, body, orelse, adapted)
 
     def try_(self, s, sc, rec):
         # `include ... ignore missing` of a template that does not exist: the else branch never runs
@@ -769,6 +847,8 @@ class Runner:
             return "env:" + c.co_qualname.split(".")[-1]
         if fn in self.tnames:
             return f"{fn}:{c.co_qualname}"
+        if fn.replace("\\", "/").endswith("jinja2/async_utils.py"):
+            return "rt:" + c.co_qualname.split(".")[-1]   # a generator of the loop-data adapter (auto_aiter)
         return None
 
     def snap(self):
